@@ -291,6 +291,12 @@ func ParseRealtime(content []byte, opts *ParseRealtimeOptions) (*Realtime, error
 	tripIDToVehicleID := map[TripID]VehicleID{}
 	vehicleIDToTripID := map[VehicleID]TripID{}
 	vehiclesWithNoID := []Vehicle{}
+	// Associations between trips and vehicles that have no ID. Vehicles are referenced by index into vehiclesWithNoID.
+	type noIDAssociation struct {
+		vehicleIndex int
+		tripID       TripID
+	}
+	var noIDAssociations []noIDAssociation
 	for i, entity := range feedMessage.Entity {
 		if shouldSkip[i] {
 			continue
@@ -350,8 +356,18 @@ func ParseRealtime(content []byte, opts *ParseRealtimeOptions) (*Realtime, error
 				vehicleIDToTripID[*vehicle.ID] = trip.ID
 			} else {
 				trip.Vehicle = vehicle
+				noIDAssociations = append(noIDAssociations, noIDAssociation{
+					vehicleIndex: len(vehiclesWithNoID) - 1,
+					tripID:       trip.ID,
+				})
 			}
 		}
+	}
+
+	for _, a := range noIDAssociations {
+		vehicle := &vehiclesWithNoID[a.vehicleIndex]
+		vehicle.Trip = tripsById[a.tripID]
+		tripsById[a.tripID].Vehicle = vehicle
 	}
 
 	for tripID, trip := range tripsById {
